@@ -125,6 +125,11 @@ func comparePositiveBytes(prefix string, want profile.HavocConfig, text []byte, 
 	if topClass(spell[d.AttrPath]) == "x-escape-then-raw-hex-digit" {
 		kind = "text" // string, label, map key: one defect of the string-literal unescaper
 	}
+	for _, x := range diffs {
+		if astralDiff(x.Want) {
+			return core.V(astralSig, "%s: written %s, loaded %s (%d differing item(s)): a rune above U+FFFF directly followed by a combining mark is composed as if it were cut to 16 bits\n--- profile ---\n%s", x.Path, x.Want, x.Got, len(diffs), src)
+		}
+	}
 	return core.V(fmt.Sprintf("%s|value-mismatch|%s|%s", prefix, kind, topClass(spell[d.AttrPath])),
 		"%s: written %s, loaded %s (%d differing item(s); spelling classes of this attribute: %v)\n--- profile ---\n%s", d.Path, d.Want, d.Got, len(diffs), spell[d.AttrPath], src)
 }
